@@ -1690,7 +1690,7 @@ def _run_slots(ctx: common.Ctx, props, n_docs: int, n_ops: int):
         except Exception as e:
             import traceback
             tb = traceback.extract_tb(e.__traceback__)
-            if tb and tb[-1].filename.startswith('/verif/'):
+            if tb and tb[-1].filename.startswith(str(common.VERIF) + '/'):
                 # the HARNESS could not observe the run (it read private state that is no longer there): that is a
                 # broken tie, never a counter-example
                 ctx.fail('tie', 'harness-observation', f'corpus script could not be observed ({type(e).__name__}: {e} at '
